@@ -284,7 +284,26 @@ impl<'a> Interp<'a> {
     pub fn recv_from_meta(&self, r: &Recv, it: &Item) -> Conv {
         // a newtype struct hands the whole item to its only field
         if let Shape::Newtype(t) = &r.shape {
-            return self.from_meta(t, it).map(|v| newtype_value(r, v));
+            // the only field is converted like any field (its own with / map / and_then), then the
+            // container's map / and_then act on the result
+            let inner = match r.newtype_field() {
+                Some(f) => self.convert_field(&f, it)?,
+                None => self.from_meta(t, it)?,
+            };
+            let mut inner = inner;
+            if let Ty::Sc(sc) = t {
+                match r.post {
+                    Post::None => {}
+                    Post::Map => inner = apply_cmap(*sc, inner),
+                    Post::AndThen => {
+                        if cand_rejects(*sc, &inner) {
+                            return Err(vec![leaf(LeafKind::Custom, Where::Nowhere, "")]);
+                        }
+                        inner = apply_cmap(*sc, inner);
+                    }
+                }
+            }
+            return Ok(newtype_value(r, inner));
         }
         match &it.kind {
             Kind::Word => match self.from_word_value(r) {
